@@ -279,3 +279,215 @@ def optable(tier, rng):
         rng.shuffle(rest)
         cases = keep + rest[:len(rest) // 2]
     return cases
+
+
+# ------------------------------------------------------------------------------------------ statements, functions, copies
+def acc_init():
+    return [var("acc", TT, lit(T("")), False)]
+
+
+def acc_add(e_text):
+    return setv(lvid("acc"), bin_("cat", bin_("cat", ident("acc"), e_text), lit(T(","))))
+
+
+def as_text(e):
+    return cast(TT, e)
+
+
+def if_(c, then, els=()):
+    return {"k": "if", "c": c, "then": list(then), "else": list(els)}
+
+
+def idx_lv(l, i):
+    return {"k": "idx", "l": l, "i": i}
+
+
+def fld_lv(f, l):
+    return {"k": "fld", "f": f, "l": l}
+
+
+def fn(n, params, ret, body):
+    return dict(n=n, params=[dict(n=p[0], t=p[1], ref=p[2]) for p in params], ret=ret, body=body)
+
+
+RET = lambda e: {"k": "ret", "e": e}
+RETV = {"k": "ret", "e": NONE}
+BRK, CONT = {"k": "break"}, {"k": "continue"}
+
+FUNCS = [
+    fn("setze_erstes", [("l", TL(TZ), True), ("v", TZ, False)], TNONE, [setv(idx_lv(lvid("l"), zl(1)), ident("v"))]),
+    fn("aendere_kopie", [("l", TL(TZ), False), ("v", TZ, False)], TZ, [setv(idx_lv(lvid("l"), zl(1)), ident("v")), RET(bin_("idx", ident("l"), zl(1)))]),
+    fn("ersetze_zeichen", [("t", TT, True), ("c", TC, False), ("i", TZ, False)], TNONE, [setv(idx_lv(lvid("t"), ident("i")), ident("c"))]),
+    fn("ersetze_in_kopie", [("t", TT, False), ("c", TC, False), ("i", TZ, False)], TT, [setv(idx_lv(lvid("t"), ident("i")), ident("c")), RET(ident("t"))]),
+    fn("haenge_an", [("t", TT, True), ("s", TT, False)], TNONE, [setv(lvid("t"), bin_("cat", ident("t"), ident("s")))]),
+    fn("kiste_kopie_aendern", [("k", TS("Kiste"), False)], TZ, [setv(idx_lv(fld_lv("inhalt", lvid("k")), zl(1)), zl(99)), RET(bin_("idx", {"k": "fld", "f": "inhalt", "e": ident("k")}, zl(1)))]),
+    fn("paar_kopie_aendern", [("p", TS("Paar"), False)], TT, [setv(idx_lv(fld_lv("wort", lvid("p")), zl(1)), lit(C("X"))), RET({"k": "fld", "f": "wort", "e": ident("p")})]),
+    fn("paar_ref_aendern", [("p", TS("Paar"), True)], TNONE, [setv(fld_lv("zahl", lvid("p")), bin_("plus", {"k": "fld", "f": "zahl", "e": ident("p")}, zl(1)))]),
+    fn("fib", [("n", TZ, False)], TZ, [if_(bin_("lt", ident("n"), zl(2)), [RET(ident("n"))]), RET(bin_("plus", call("fib", [("n", bin_("minus", ident("n"), zl(1)))]), call("fib", [("n", bin_("minus", ident("n"), zl(2)))])))]),
+    fn("finde", [("l", TL(TT), False), ("x", TT, False)], TZ, [
+        {"k": "foreach", "v": "e", "t": TT, "idx": "i", "in": ident("l"), "body": [if_(bin_("eq", ident("e"), ident("x")), [RET(ident("i"))])]}, RET(zl(0))]),
+    fn("erstes_gerades", [("l", TL(TZ), False)], TZ, [
+        {"k": "for", "v": "i", "t": TZ, "from": zl(1), "to": un("len", ident("l")), "step": NONE, "body": [
+            {"k": "while", "c": lit(W(True)), "body": [if_(bin_("eq", bin_("mod", bin_("idx", ident("l"), ident("i")), zl(2)), zl(0)), [RET(bin_("idx", ident("l"), ident("i")))]), BRK]}]},
+        RET(zl(-1))]),
+    fn("setze_global", [("v", TZ, False)], TNONE, [setv(lvid("glob_z"), ident("v"))]),
+    fn("global_und_wert", [("w", TL(TZ), False)], TZ, [setv(idx_lv(lvid("glob_l"), zl(1)), zl(77)), RET(bin_("idx", ident("w"), zl(1)))]),
+    fn("global_und_ref", [("r", TL(TZ), True)], TZ, [setv(idx_lv(lvid("glob_l"), zl(1)), zl(55)), RET(bin_("idx", ident("r"), zl(1)))]),
+    fn("wert_und_ref", [("w", TL(TZ), False), ("r", TL(TZ), True)], TZ, [setv(idx_lv(lvid("r"), zl(1)), zl(42)), RET(bin_("idx", ident("w"), zl(1)))]),
+    fn("zwei_refs", [("a", TT, True), ("b", TT, True)], TT, [setv(lvid("a"), bin_("cat", ident("a"), lit(T("!")))), RET(ident("b"))]),
+    fn("text_zurueck", [("t", TT, False)], TT, [RET(bin_("cat", ident("t"), lit(T("+"))))]),
+    fn("liste_zurueck", [("n", TZ, False)], TL(TT), [var("r", TL(TT), lit(L(TT, [])), False),
+        {"k": "for", "v": "i", "t": TZ, "from": zl(1), "to": ident("n"), "step": NONE, "body": [setv(lvid("r"), bin_("cat", ident("r"), as_text(ident("i"))))]}, RET(ident("r"))]),
+]
+GLOBALS = [var("glob_z", TZ, zl(5)), var("glob_l", TL(TZ), lit(L(TZ, [Z(1), Z(2), Z(3)])))]
+
+
+def stmt_cases(tier, rng):
+    cases = []
+
+    def add(key, setup, e, t):
+        cases.append(Case(key, e, t, setup))
+    R = range(-2, 4)
+    # counting loops: bounds and steps (inclusive bounds, direction = sign of the step)
+    for a, b in itertools.product(R, R):
+        for s in (None, 1, 2, -1, -2, 3):
+            loop = {"k": "for", "v": "i", "t": TZ, "from": zl(a), "to": zl(b), "step": NONE if s is None else zl(s), "body": [acc_add(as_text(ident("i")))]}
+            add("for:Z:%d:%d:%s" % (a, b, s), acc_init() + [loop], ident("acc"), TT)
+    for a, b, s in ((1, 3, None), (1, 3, 2), (3, 1, -1), (0, 0, 1), (2, 1, 1)):
+        loop = {"k": "for", "v": "i", "t": TK, "from": lit(K(a)), "to": lit(K(b)), "step": NONE if s is None else lit(K(s)), "body": [acc_add(as_text(ident("i")))]}
+        add("for:K:%d:%d:%s" % (a, b, s), acc_init() + [loop], ident("acc"), TT)
+    loop = {"k": "for", "v": "i", "t": TK, "from": lit(K(0)), "to": lit(K(1)), "step": lit(K(1, 2)), "body": [acc_add(as_text(ident("i")))]}
+    add("for:K:quarter", acc_init() + [loop], ident("acc"), TT)
+    # the bound is re-evaluated, the counter is hidden
+    add("for:bound-reeval", acc_init() + [var("n", TZ, zl(5), False), {"k": "for", "v": "i", "t": TZ, "from": zl(1), "to": ident("n"), "step": NONE, "body": [
+        acc_add(as_text(ident("i"))), setv(lvid("n"), bin_("minus", ident("n"), zl(1)))]}], ident("acc"), TT)
+    add("for:assign-counter", acc_init() + [{"k": "for", "v": "i", "t": TZ, "from": zl(1), "to": zl(4), "step": NONE, "body": [
+        acc_add(as_text(ident("i"))), setv(lvid("i"), zl(10))]}], ident("acc"), TT)
+    # while / do-while / repeat with break and continue at every position
+    for n in range(0, 4):
+        for brk in (None, 0, 1, 2):
+            for cont in (None, 1, 2):
+                body = [setv(lvid("j"), bin_("plus", ident("j"), zl(1)))]
+                if cont is not None:
+                    body.append(if_(bin_("eq", ident("j"), zl(cont)), [CONT]))
+                if brk is not None:
+                    body.append(if_(bin_("eq", ident("j"), zl(brk)), [BRK]))
+                body.append(acc_add(as_text(ident("j"))))
+                pre = acc_init() + [var("j", TZ, zl(0), False)]
+                add("while:%d:%s:%s" % (n, brk, cont), pre + [{"k": "while", "c": bin_("lt", ident("j"), zl(n)), "body": body}], ident("acc"), TT)
+                add("dowhile:%d:%s:%s" % (n, brk, cont), pre + [{"k": "dowhile", "c": bin_("lt", ident("j"), zl(n)), "body": body}], ident("acc"), TT)
+                add("repeat:%d:%s:%s" % (n, brk, cont), pre + [{"k": "repeat", "n": zl(n), "body": body}], ident("acc"), TT)
+    # nested loops: break/continue act on the innermost
+    inner = {"k": "for", "v": "b", "t": TZ, "from": zl(1), "to": zl(3), "step": NONE, "body": [if_(bin_("eq", ident("b"), zl(2)), [CONT]), if_(bin_("gt", bin_("plus", ident("a"), ident("b")), zl(4)), [BRK]),
+             acc_add(bin_("cat", as_text(ident("a")), as_text(ident("b"))))]}
+    add("nested:brk-cont", acc_init() + [{"k": "for", "v": "a", "t": TZ, "from": zl(1), "to": zl(3), "step": NONE, "body": [inner, acc_add(lit(T("|")))]}], ident("acc"), TT)
+    # if / else chains
+    for v in range(0, 4):
+        st = if_(bin_("eq", zl(v), zl(0)), [acc_add(lit(T("null")))], [if_(bin_("eq", zl(v), zl(1)), [acc_add(lit(T("eins")))], [if_(bin_("gt", zl(v), zl(2)), [acc_add(lit(T("gross")))])])])
+        add("if:%d" % v, acc_init() + [st], ident("acc"), TT)
+    # for-each over lists and texts, with index; the iterated value is a private copy
+    for i, s in enumerate(TBV):
+        add("each:T:%d" % i, acc_init() + [{"k": "foreach", "v": "c", "t": TC, "idx": "ix", "in": lit(T(s)), "body": [acc_add(bin_("cat", as_text(ident("ix")), ident("c")))]}], ident("acc"), TT)
+        su = [var("src", TT, lit(T(s)), False)]
+        add("each:T:%d:var" % i, acc_init() + su + [{"k": "foreach", "v": "c", "t": TC, "idx": "", "in": ident("src"), "body": [acc_add(as_text(ident("c")))]}], ident("acc"), TT)
+    for l in ([], [5], [1, 2, 3], [MINI, MAXI]):
+        add("each:LZ:%d" % len(l), acc_init() + [{"k": "foreach", "v": "z", "t": TZ, "idx": "ix", "in": lit(L(TZ, [Z(x) for x in l])), "body": [acc_add(bin_("cat", bin_("cat", as_text(ident("ix")), lit(T("="))), as_text(ident("z"))))]}], ident("acc"), TT)
+    add("each:mutate-source:list", acc_init() + [var("src", TL(TZ), lit(L(TZ, [Z(1), Z(2), Z(3), Z(4)])), False), {"k": "foreach", "v": "z", "t": TZ, "idx": "", "in": ident("src"), "body": [
+        acc_add(as_text(ident("z"))), setv(idx_lv(lvid("src"), zl(4)), zl(0))]}], ident("acc"), TT)
+    add("each:mutate-source:text", acc_init() + [var("src", TT, lit(T("abcd")), False), {"k": "foreach", "v": "c", "t": TC, "idx": "", "in": ident("src"), "body": [
+        acc_add(as_text(ident("c"))), setv(idx_lv(lvid("src"), zl(4)), lit(C("x")))]}], ident("acc"), TT)
+    add("each:mutate-source:ref-callee", acc_init() + [var("src", TL(TZ), lit(L(TZ, [Z(1), Z(2), Z(3)])), False), {"k": "foreach", "v": "z", "t": TZ, "idx": "", "in": ident("src"), "body": [
+        acc_add(as_text(ident("z"))), {"k": "expr", "e": call("setze_erstes", [("l", lvid("src")), ("v", zl(9))])}, setv(idx_lv(lvid("src"), zl(3)), zl(0))]}, acc_add(as_text(bin_("idx", ident("src"), zl(1))))], ident("acc"), TT)
+    add("each:element-is-copy", acc_init() + [var("src", TL(TT), lit(L(TT, [T("ab"), T("cd")])), False), {"k": "foreach", "v": "e", "t": TT, "idx": "", "in": ident("src"), "body": [
+        setv(idx_lv(lvid("e"), zl(1)), lit(C("X"))), acc_add(ident("e"))]}, acc_add(bin_("idx", ident("src"), zl(1)))], ident("acc"), TT)
+    # functions: recursion, early return from nested constructs, value and Referenz parameters, globals
+    for n in (0, 1, 2, 7, 10):
+        add("call:fib:%d" % n, [], call("fib", [("n", zl(n))]), TZ)
+    for l, x in ((["a", "b", "c"], "b"), (["a", "b"], "z"), ([], "a"), (["ö€", "ö"], "ö")):
+        add("call:finde:%d:%s" % (len(l), x), [], call("finde", [("l", lit(L(TT, [T(s) for s in l]))), ("x", lit(T(x)))]), TZ)
+    for l in ([1, 3, 4, 6], [1, 3], [], [2]):
+        add("call:erstes_gerades:%s" % "_".join(map(str, l)), [], call("erstes_gerades", [("l", lit(L(TZ, [Z(v) for v in l])))]), TZ)
+    for n in (0, 1, 3):
+        add("call:liste_zurueck:%d" % n, [], call("liste_zurueck", [("n", zl(n))]), TL(TT))
+    return cases
+
+
+def copy_cases(tier, rng):
+    """C08: two holders of one non-primitive value through every copy-introducing construct, then one is mutated"""
+    cases = []
+
+    def add(key, setup, e, t):
+        cases.append(Case(key, e, t, setup))
+    LZ = lit(L(TZ, [Z(1), Z(2), Z(3)]))
+    LT = lit(L(TT, [T("ab"), T("cd")]))
+    TX = lit(T("ölaf"))
+    PA = new("Paar", zahl=zl(3), wort=lit(T("drei")))
+    KI = new("Kiste", inhalt=LZ, paar=PA, flag=lit(W(True)))
+    both = lambda a, b, ta, tb=None: (print_pair(a, b, ta, tb or ta))
+    kinds = {
+        "LZ": (TL(TZ), LZ, lambda n: setv(idx_lv(lvid(n), zl(1)), zl(9)), lambda n: [setv(lvid(n), bin_("cat", ident(n), zl(4)))]),
+        "LT": (TL(TT), LT, lambda n: setv(idx_lv(idx_lv(lvid(n), zl(1)), zl(1)), lit(C("X"))), lambda n: [setv(idx_lv(lvid(n), zl(2)), lit(T("neu")))]),
+        "T": (TT, TX, lambda n: setv(idx_lv(lvid(n), zl(1)), lit(C("O"))), lambda n: [setv(idx_lv(lvid(n), zl(2)), lit(C("€")))]),
+        "P": (TS("Paar"), PA, lambda n: setv(fld_lv("zahl", lvid(n)), zl(8)), lambda n: [setv(idx_lv(fld_lv("wort", lvid(n)), zl(1)), lit(C("D")))]),
+        "K": (TS("Kiste"), KI, lambda n: setv(idx_lv(fld_lv("inhalt", lvid(n)), zl(2)), zl(0)), lambda n: [setv(fld_lv("zahl", fld_lv("paar", lvid(n))), zl(1))]),
+    }
+    for kn, (t, init, mut1, mut2) in kinds.items():
+        for mi, mut in enumerate((lambda n: [mut1(n)], mut2)):
+            # initialisation copy
+            su = [var("a", t, init, False), var("b", t, ident("a"), False)] + mut("b")
+            add("copy:init:%s:%d" % (kn, mi), su, *pair_expr("a", "b", t))
+            su = [var("a", t, init, False), var("b", t, ident("a"), False)] + mut("a")
+            add("copy:init-mut-orig:%s:%d" % (kn, mi), su, *pair_expr("a", "b", t))
+            # assignment copy
+            su = [var("a", t, init, False), var("b", t, {"k": "std", "t": t}, False), setv(lvid("b"), ident("a"))] + mut("b")
+            add("copy:assign:%s:%d" % (kn, mi), su, *pair_expr("a", "b", t))
+            # list element copy (store into list, mutate the source)
+            su = [var("a", t, init, False), var("l", TL(t) if "l" not in t else None, None, False)] if False else None
+    # value argument: the callee mutates its copy (all levels; at -O2 the copy may be elided only if never written)
+    add("copy:arg:list", [var("a", TL(TZ), LZ, False), var("r", TZ, call("aendere_kopie", [("l", ident("a")), ("v", zl(9))]), False)], *pair2(ident("r"), TZ, ident("a"), TL(TZ)))
+    add("copy:arg:text", [var("a", TT, TX, False), var("r", TT, call("ersetze_in_kopie", [("t", ident("a")), ("c", lit(C("O"))), ("i", zl(1))]), False)], *pair2(ident("r"), TT, ident("a"), TT))
+    add("copy:arg:kiste-field-element", [var("a", TS("Kiste"), KI, False), var("r", TZ, call("kiste_kopie_aendern", [("k", ident("a"))]), False)], *pair2(ident("r"), TZ, ident("a"), TS("Kiste")))
+    add("copy:arg:paar-field-char", [var("a", TS("Paar"), PA, False), var("r", TT, call("paar_kopie_aendern", [("p", ident("a"))]), False)], *pair2(ident("r"), TT, ident("a"), TS("Paar")))
+    # Referenz parameters alias exactly the argument: variable, element, field
+    add("ref:var", [var("a", TL(TZ), LZ, False), {"k": "expr", "e": call("setze_erstes", [("l", lvid("a")), ("v", zl(9))])}], ident("a"), TL(TZ))
+    add("ref:text", [var("a", TT, TX, False), {"k": "expr", "e": call("ersetze_zeichen", [("t", lvid("a")), ("c", lit(C("O"))), ("i", zl(1))])}], ident("a"), TT)
+    add("ref:text:shrink-then-compare", [var("a", TT, TX, False), {"k": "expr", "e": call("ersetze_zeichen", [("t", lvid("a")), ("c", lit(C("O"))), ("i", zl(1))])}],
+        bin_("eq", ident("a"), lit(T("Olaf"))), TW)
+    add("ref:element", [var("a", TL(TT), LT, False), {"k": "expr", "e": call("haenge_an", [("t", idx_lv(lvid("a"), zl(2))), ("s", lit(T("!")))])}], ident("a"), TL(TT))
+    add("ref:field", [var("a", TS("Paar"), PA, False), {"k": "expr", "e": call("haenge_an", [("t", fld_lv("wort", lvid("a"))), ("s", lit(T("!")))])}], ident("a"), TS("Paar"))
+    add("ref:struct", [var("a", TS("Paar"), PA, False), {"k": "expr", "e": call("paar_ref_aendern", [("p", lvid("a"))])}], ident("a"), TS("Paar"))
+    add("ref:field-of-element", [var("a", TL(TS("Paar")), {"k": "list", "et": TS("Paar"), "vals": [PA, PA]}, False), {"k": "expr", "e": call("paar_ref_aendern", [("p", idx_lv(lvid("a"), zl(2)))])}], ident("a"), TL(TS("Paar")))
+    # the same variable by value and by Referenz; two Referenz parameters; a global also passed as argument
+    add("alias:wert-und-ref", [var("a", TL(TZ), LZ, False), var("r", TZ, call("wert_und_ref", [("w", ident("a")), ("r", lvid("a"))]), False)], *pair2(ident("r"), TZ, ident("a"), TL(TZ)))
+    add("alias:zwei-refs", [var("a", TT, lit(T("x")), False), var("r", TT, call("zwei_refs", [("a", lvid("a")), ("b", lvid("a"))]), False)], *pair2(ident("r"), TT, ident("a"), TT))
+    add("alias:global-und-wert", [var("r", TZ, call("global_und_wert", [("w", ident("glob_l"))]), False)], *pair2(ident("r"), TZ, ident("glob_l"), TL(TZ)))
+    add("alias:global-und-ref", [var("r", TZ, call("global_und_ref", [("r", lvid("glob_l"))]), False)], *pair2(ident("r"), TZ, ident("glob_l"), TL(TZ)))
+    add("global:set", [{"k": "expr", "e": call("setze_global", [("v", zl(11))])}], ident("glob_z"), TZ)
+    # return value, Variable boxing, slices, concatenation operands are copies
+    add("copy:return", [var("a", TT, lit(T("r")), False), var("b", TT, call("text_zurueck", [("t", ident("a"))]), False), setv(idx_lv(lvid("b"), zl(1)), lit(C("R")))], *pair_expr("a", "b", TT))
+    add("copy:box", [var("a", TL(TZ), LZ, False), var("v", TV, cast(TV, ident("a")), False), setv(idx_lv(lvid("a"), zl(1)), zl(9)), var("b", TL(TZ), cast(TL(TZ), ident("v")), False)], *pair_expr("a", "b", TL(TZ)))
+    add("copy:slice", [var("a", TL(TZ), LZ, False), var("b", TL(TZ), ter("slice", ident("a"), zl(1), zl(2)), False), setv(idx_lv(lvid("b"), zl(1)), zl(9))], *pair_expr("a", "b", TL(TZ)))
+    add("copy:concat", [var("a", TT, TX, False), var("b", TT, bin_("cat", ident("a"), lit(T(""))), False), setv(idx_lv(lvid("b"), zl(1)), lit(C("O")))], *pair_expr("a", "b", TT))
+    add("copy:concat-list", [var("a", TL(TZ), LZ, False), var("b", TL(TZ), bin_("cat", ident("a"), ident("a")), False), setv(idx_lv(lvid("a"), zl(1)), zl(9))], *pair_expr("a", "b", TL(TZ)))
+    add("copy:list-element", [var("a", TT, TX, False), var("l", TL(TT), {"k": "list", "et": TT, "vals": [ident("a"), ident("a")]}, False), setv(idx_lv(lvid("a"), zl(1)), lit(C("O"))), setv(idx_lv(idx_lv(lvid("l"), zl(1)), zl(2)), lit(C("L")))], *pair2(ident("a"), TT, ident("l"), TL(TT)))
+    add("copy:field-init", [var("a", TT, TX, False), var("p", TS("Paar"), new("Paar", zahl=zl(1), wort=ident("a")), False), setv(idx_lv(lvid("a"), zl(1)), lit(C("O")))], *pair2(ident("a"), TT, ident("p"), TS("Paar")))
+    return [c for c in cases if c is not None]
+
+
+def pair_expr(a, b, t):
+    return pair2(ident(a), t, ident(b), t)
+
+
+def pair2(e1, t1, e2, t2):
+    """a Kombination-free way to print two values: wrap in a Text via helper statements is not possible for all types,
+    so a pair is printed as a list of Variable?  -> simply use a synthetic 2-field print through print_value"""
+    return ({"k": "pair", "a": e1, "ta": t1, "b": e2, "tb": t2}, {"pair": True})
+
+
+_pv = print_value
+
+
+def print_value(e, t, tmp):      # noqa: F811  (extends the earlier definition with pairs)
+    if isinstance(t, dict) and t.get("pair"):
+        return _pv(e["a"], e["ta"], tmp + "p") + [pr(lit(T(" / ")))] + _pv(e["b"], e["tb"], tmp + "q")
+    return _pv(e, t, tmp)
